@@ -39,7 +39,7 @@ type CompilerPass struct {
 }
 
 func (pass CompilerPass) AsCompilerPass() (compiler.Pass, error) {
-	if err := oneMemberOnly("transformations", pass); err != nil {
+	if err := OneMemberOnly("transformations", pass); err != nil {
 		return nil, err
 	}
 
